@@ -839,6 +839,18 @@ package jsonpath
 //@   loop 1 invariant done: cmpDone(this, left, right, rangeindex)
 //@   loop 1 invariant todo: cmpTodo(left, rangeindex)
 //@   loop 1 invariant found: hasValue <==> cmpFound(this, left, right, rangeindex)
+// deepEqualByValue: the deep equality `==` uses between two paths; numbers compare by value at every depth (C10).
+// deepEq names the relation it computes (a deterministic function of its operands and the read-only document: assumed);
+// what is proved is that it terminates on finite acyclic values (ranking vdepth, assumed to decrease from a container to
+// its members) and cannot panic, for every dynamic type (C03, C20).
+//@ smt (declare-fun vdepth (Val) Int)
+//@ func deepEqualByValue
+//@   props C03 C04 C05 C06 C10 C20 C09
+//@   unfold 0 <= vdepth(left) && (isType(left, map[string]interface{}) ==> (forall k Str {asType(left, map[string]interface{})[k]} :: 0 <= vdepth(asType(left, map[string]interface{})[k]) && vdepth(asType(left, map[string]interface{})[k]) < vdepth(left))) && (isType(left, []interface{}) ==> (forall j {asType(left, []interface{})[j]} :: 0 <= j && j < len(asType(left, []interface{})) ==> 0 <= vdepth(asType(left, []interface{})[j]) && vdepth(asType(left, []interface{})[j]) < vdepth(left)))
+//@   decreases vdepth(left)
+//@   assume ret == deepEq(left, right)
+//@ func equalsNumber
+//@   props C03 C04 C05 C06 C10 C20 C09
 //@ func (*syntaxCompareGE).comparator
 //@   props C03 C04 C05 C06 C10 C20 C09
 //@   implements syntaxComparator.comparator
